@@ -215,6 +215,9 @@ func (r *ReadinessCheck) Validate() *field.Error {
 			return field.Required(field.NewPath("matchInteger"), "cannot be 0 for type MatchInteger")
 		}
 	case ReadinessCheckTypeMatchCondition:
+		if r.MatchCondition == nil {
+			return field.Required(field.NewPath("matchCondition"), "cannot be nil for type MatchCondition")
+		}
 		if err := r.MatchCondition.Validate(); err != nil {
 			return errors.WrapFieldError(err, field.NewPath("matchCondition"))
 		}
